@@ -113,6 +113,9 @@ def byte_search(ctx, ops, verdict_classes):
     ar = run_shards(ctx, [("arch", "MC_ArchMemchr", dict(MaxLen=100 if ctx.quick else 200, Emit=True), ["EmitReplay"], 2)])
     for force in ("avx2", "sse2", "fallback"):
         replay_cmd(ctx, binp, "replay-route", ar["arch"]["vec_path"], "route@" + force, verdict_classes, extra=["--force", force], env={"MEMCHR_VERIF_FORCE": force})
+    wb = simd128_bin(ctx)
+    if wb:
+        replay_cmd(ctx, wb, "replay-generic", gvec, "generic@simd128", verdict_classes, extra=["--no-scaled", "--variants", 1, "--stretches", 3])
     executed = []
     miri_vehicles(ctx, [gvec, svec], verdict_classes, executed)
     ctx.counters_note = executed
@@ -152,6 +155,9 @@ def iter_part(ctx, verdict_classes):
         if rep is None:
             raise ToolError("replayer failed rc=%s: %s" % (rc, err[-2000:]))
         C.absorb_report(ctx, rep, verdict_classes, "iter@%s" % force)
+    wb = simd128_bin(ctx)
+    if wb:
+        replay_cmd(ctx, wb, "replay-iter", vec, "iter@simd128", verdict_classes, extra=["--variants", 1, "--stretches", 2])
     ctx.evaluations += sum(v for k, v in ctx.counters.items() if k.endswith("iter_calls_exec"))
 
 
@@ -186,15 +192,24 @@ def c06(ctx):
     return C.finish(ctx, "model_checking", RULE_ITER, extra_cov=extra)
 
 
-def miri_vehicles(ctx, vecs, classes, executed):
+def miri_vehicles(ctx, vecs, classes, executed, targets=None):
     """Optional vehicles (never fail a check): foreign targets under Miri. Implemented in vlib/miri.py."""
     try:
         from . import miri
-        miri.run(ctx, vecs, classes, executed)
+        miri.run(ctx, vecs, classes, executed, targets=targets)
     except ToolError as e:
         ctx.vehicles_skipped.append({"vehicle": "miri", "reason": str(e)[:300]})
     except Exception as e:  # an infrastructure problem in an optional vehicle must never fail a check
         ctx.vehicles_skipped.append({"vehicle": "miri", "reason": "driver error: %r" % (e,)})
+
+
+def simd128_bin(ctx):
+    """Optional vehicle: the harness built against the cfg-rewritten copy in which the real wasm32 simd128 code runs natively."""
+    try:
+        return C.build_simd128()
+    except ToolError as e:
+        ctx.vehicles_skipped.append({"vehicle": "simd128", "reason": str(e)[:300]})
+        return None
 
 
 def replay_cmd(ctx, binp, cmd, vec, tag, classes, extra=(), env=None):
@@ -448,6 +463,9 @@ def c11(ctx):
     ctx.nontrivial += sum(1 for v in C.read_vectors(pvec) if v["find"] >= 0)
     replay_cmd(ctx, binp, "replay-pp", pvec, "pp", {"result", "panic"})
     mm_replay(ctx, binp, vec, "blocks", {"result", "panic"}, 5 if ctx.quick else 10, forces=("avx2",))
+    wb = simd128_bin(ctx)
+    if wb:
+        replay_cmd(ctx, wb, "replay-mm", vec, "mm@simd128", {"result", "panic"}, extra=["--lifts", 5, "--groups", "blocks", "--force", "avx2"])
     miri_vehicles(ctx, [vec], {"result", "panic"}, [])
     # I->S at real constants: pair offsets up to 254, occurrences in the last overlapping chunk; TLC checks the C11 predicate
     lib_traces(ctx, "pre", "pre", "all", 1500 if ctx.quick else 15000, "pre", forces=("avx2",))
@@ -580,6 +598,11 @@ def c05(ctx):
         replay_cmd(ctx, binp, "replay-guard", bvec, "guard_bytes_%s" % prof, classes)
         replay_cmd(ctx, binp, "replay-guard", mvec, "guard_sub_%s" % prof, classes, extra=["--lifts", 4 if q else 8])
         replay_cmd(ctx, binp, "replay-iseq", res["ie"]["vec_path"], "iseq_%s" % prof, classes)
+    wb = simd128_bin(ctx)
+    if wb:
+        replay_cmd(ctx, wb, "replay-guard", bvec, "guard_bytes_simd128", classes)
+        if not q:
+            replay_cmd(ctx, wb, "replay-guard", mvec, "guard_sub_simd128", classes, extra=["--lifts", 4])
     binp = C.build_harness()
     # hooked loads of the real generic code at the model widths (vector part) and of the scaled packed-pair code
     replay_cmd(ctx, binp, "replay-generic", gvec, "generic_loads", classes, extra=["--variants", 1, "--stretches", 2])
@@ -900,7 +923,7 @@ def c09(ctx):
         replay_cmd(ctx, binp, "replay-generic", svec, "swar@" + name, classes, extra=["--no-scaled", "--variants", 1, "--stretches", 3], env=env)
         replay_cmd(ctx, binp, "replay-mm", mvec, "mm@" + name, classes, extra=["--lifts", 5 if q else 10, "--groups", "find,rfind,iter,riter,blocks", "--force", force], env=env)
         executed.append(name)
-    miri_vehicles(ctx, [gvec, svec, mvec], classes, executed)
+    miri_vehicles(ctx, [gvec, svec, mvec], classes, executed, targets=["neon", "be64", "le32"])
     ctx.evaluations += sum_exec(ctx, ["real_exec", "scaled_exec", "mm_exec", "miri_exec"])
     ctx.assumptions.append("x86-64 compiled without SSE2 cannot be built in this sandbox; wasm simd128 runs against emulated intrinsics (7 functions in vehicles/wasm32_emul.rs)")
     return C.finish(ctx, "model_checking",
